@@ -182,7 +182,13 @@ def run(prog):
         # ---- and no clause is invented: every leaf the dtree builder makes holds one of the formula's clauses
         if name == "from_cnf":
             leaves, bad = 0, []
-            for g in _bodies(prog, fn):
+            # every function of the dtree module that makes a leaf (the builder's helpers included: `balanced`)
+            makers = list(_bodies(prog, fn))
+            for h in prog.lib_fns:
+                if "repr::dtree::" in h.npath and h not in makers and "::test" not in h.npath and \
+                        not (h.impl_trait or "").startswith(("std::", "core::", "serde::")) and "_::" not in h.npath:
+                    makers.append(h)
+            for g in makers:
                 for bb, t, line in g.terms.aggs:
                     if not (t[1] == "adt" and (t[2] or "").endswith("DTree") and t[3] == "Leaf" and "clause" in t[5]):
                         continue
